@@ -20,7 +20,9 @@ atomic beyond a single lock region of `ractor/src/pg.rs`:
   group entry is blocked, but the relations-lock-only regions of an exit (`mark`, `demTake`, `take`)
   and everything on other keys run in between / clean-up region / notification region), `leave_scoped` (entry region / notification region),
   `monitor` and `monitor_scope` (`get_or_create_actor_relations` / entry + relations lock region /
-  status re-check region), `demonitor`, `demonitor_scope` (one region);
+  status re-check region), `demonitor` and `demonitor_scope` (`get_actor_relations` — the fetch of the
+  reverse-index `Arc`, done BEFORE the entry is taken — then the entry region, which updates the reverse
+  index only if the fetch found an entry);
 * a schedule is a list of `Tid`s: which exit takes which of its next regions (the iteration order
   over a drained `HashSet` is the schedule's choice) or which caller thread takes its next region.
 
@@ -53,8 +55,12 @@ inductive Pc
   | monitorScope (s b : Nat)
   | monitorScopeRel (s b : Nat)
   | monitorScopeRecheck (s b : Nat)
-  | demonitor (g b : Nat)
+  | demonitorCall (g b : Nat)                                     -- before `get_actor_relations`
+  | demonitor (g b : Nat)                                         -- fetched an `Arc`: before the entry region
+  | demonitorFwd (g b : Nat)                                      -- fetched `None`: the entry region will not touch the reverse index
+  | demonitorScopeCall (s b : Nat)
   | demonitorScope (s b : Nat)
+  | demonitorScopeFwd (s b : Nat)
   | done
   deriving DecidableEq, Repr
 
@@ -82,6 +88,10 @@ structure G where
   holding thread and its local variables: the call's `actors` and its `accepted` set so far (reverse
   index already updated, forward insert still to come) -/
   locks : List (Key × (Nat × List Nat × List Nat))
+  /-- ghost: the reverse-index MONITOR entries a `demonitor*` that had fetched `None` could not remove
+  (a `monitor*` of the same actor ran between its fetch and its entry region) -/
+  staleG : List (Nat × Key)
+  staleW : List (Nat × Nat)
   /-- ghost: every notification sent so far -/
   sent : List Ev
   /-- ghost: one record per membership change, recipients read at the instant of the change -/
@@ -111,6 +121,22 @@ def monitorEntry (st : State) (g b : Nat) : State :=
 def monitorScopeEntry (st : State) (s b : Nat) : State :=
   if alive st b then Pg.monitorScope st s b else touchWorld st s
 
+/-- `demonitor`'s entry region when the fetch found no reverse-index entry: the forward side only -/
+def demonitorFwdSt (st : State) (g b : Nat) : State :=
+  { st with map := alter st.map (defaultScope, g) (dropListener b) }
+
+def demonitorScopeFwdSt (st : State) (s b : Nat) : State :=
+  { st with world := alter st.world s (dropWorldListener b) }
+
+/-- the stale reverse-only monitor entries a region may leave behind -/
+def staleGOf : Pc → List (Nat × Key)
+  | .demonitorFwd g b => [(b, (defaultScope, g))]
+  | _ => []
+
+def staleWOf : Pc → List (Nat × Nat)
+  | .demonitorScopeFwd s b => [(b, s)]
+  | _ => []
+
 /-- the removal record of a `leave_all` iteration as a `Pending` notification -/
 def recPending (a : Nat) (r : Key × List Nat) : Pending := ⟨false, r.1.1, r.1.2, [a], r.2⟩
 
@@ -134,8 +160,12 @@ def callStep (st : State) : Pc → State × Pc × List Pending × List Ev
   | .monitorScope s b => ({ st with rel := relUpdate st.rel b id }, .monitorScopeRel s b, [], [])
   | .monitorScopeRel s b => (monitorScopeEntry st s b, .monitorScopeRecheck s b, [], [])
   | .monitorScopeRecheck s b => (Pg.monitorScopeRecheck st s b, .done, [], [])
+  | .demonitorCall g b => (st, if (get st.rel b).isSome then .demonitor g b else .demonitorFwd g b, [], [])
   | .demonitor g b => (Pg.demonitor st g b, .done, [], [])
+  | .demonitorFwd g b => (demonitorFwdSt st g b, .done, [], [])
+  | .demonitorScopeCall s b => (st, if (get st.rel b).isSome then .demonitorScope s b else .demonitorScopeFwd s b, [], [])
   | .demonitorScope s b => (Pg.demonitorScope st s b, .done, [], [])
+  | .demonitorScopeFwd s b => (demonitorScopeFwdSt st s b, .done, [], [])
   | .done => (st, .done, [], [])
 
 /-- the change record made by an exit region (only a `leave_all` iteration that removes the actor) -/
@@ -162,6 +192,7 @@ def needsKey (st : State) : Pc → Option Key
   | .monitorRel g _ => some (defaultScope, g)
   | .monitorRecheck g b => if alive st b then none else some (defaultScope, g)
   | .demonitor g _ => some (defaultScope, g)
+  | .demonitorFwd g _ => some (defaultScope, g)
   | _ => none
 
 def exNeedsKey : ExReg → Option Key
@@ -217,12 +248,13 @@ def step (g : G) : Tid → G
                  thr := g.thr.set i (.joinEntered s g' as p), changes := g.changes ++ p.toList }
       | _ =>
         let r := callStep g.st pc
-        { g with st := r.1, thr := g.thr.set i r.2.1, changes := g.changes ++ r.2.2.1, sent := g.sent ++ r.2.2.2 }
+        { g with st := r.1, thr := g.thr.set i r.2.1, changes := g.changes ++ r.2.2.1, sent := g.sent ++ r.2.2.2,
+                 staleG := g.staleG ++ staleGOf pc, staleW := g.staleW ++ staleWOf pc }
 
 def run (g : G) (sched : List Tid) : G := sched.foldl step g
 
 /-- start: the threads' calls not yet begun, no exit started, nothing sent -/
-def start (st : State) (calls : List Pc) : G := ⟨st, [], calls, [], [], []⟩
+def start (st : State) (calls : List Pc) : G := ⟨st, [], calls, [], [], [], [], []⟩
 
 /-- nothing is in flight: every caller thread has returned and every started exit has finished -/
 def atRest (g : G) : Prop :=
